@@ -73,3 +73,30 @@ Proof.
                 sl_destroy := None; sl_attrs := [] |}.
   vm_compute. repeat split; reflexivity.
 Qed.
+
+(* what the scanner writes for a return value is read back by the compiler as the same
+   nullability, skip flag and transfer; a skipped value without transfer comes back as "nothing" *)
+Theorem roundtrip_return ps sl :
+  sl_is_return sl = true ->
+  read_return (emit ps sl)
+  = (sl_nullable sl && negb (sl_not_nullable sl), sl_skip sl,
+     match sl_transfer sl with Some TNone => Some 0 | Some TContainer => Some 1 | Some TFull => Some 2
+                          | None => if sl_skip sl then Some 0 else None end).
+Proof.
+  intros R. unfold read_return, emit. rewrite R.
+  destruct (sl_kind sl); cbn [b_nullable b_skip b_transfer];
+    destruct (sl_transfer sl) as [[]|]; destruct (sl_skip sl); reflexivity.
+Qed.
+
+(* scope, closure and destroy of a parameter are read back as written: the scope by its code, the
+   indices as the positions of the named parameters *)
+Theorem roundtrip_callback_links ps sl :
+  sl_is_return sl = false ->
+  let r := read_param true (emit ps sl) in
+  rf_scope r = scope_code (sl_scope sl)
+  /\ rf_closure r = match sl_closure sl with Some n => slot_index ps n | None => None end
+  /\ rf_destroy r = match sl_destroy sl with Some n => slot_index ps n | None => None end.
+Proof.
+  intros R. unfold read_param, emit. rewrite R.
+  destruct (sl_kind sl); cbn [rf_scope rf_closure rf_destroy b_scope b_closure b_destroy]; repeat split; reflexivity.
+Qed.
